@@ -96,9 +96,9 @@ CHECKS = {
         'any number of rows, every cell and metadata value a string, URI, finite number / quantity of the written shape, valid date, time, null, marker, Remove, NA, boolean, reference with or without display name, Bin, coordinate, extended string (type names not starting with T F N M R I B C), or a list, dict or NESTED GRID (itself with metadata) of such values, '
         'nested to any depth, the text the model of the ZINC dumper writes is read back by the model of the reader\'s grid rule, of parse_grid (version sniffing included) and of parser.parse (C01_document: trailing-newline normalisation, grid splitting) as exactly that grid. '
         'By induction over metadata items, columns, rows, cells and nesting depth; every kind goes through the WHOLE per-version scalar alternation (pyparsing Or = longest match over 13 / 18 alternatives: the date, time, date-time and extended-string rules that also start with digits never win over a number, '
-        'the number rule reading leading digits loses to a date or time, NA wins over N). Date-times are proved per kind (C01_datetime: the written text is read back, through the whole alternation, as the raw ISO text and zone name; their interpretation is the iso8601 / pytz oracle); multi-grid documents are proved at the level of parser.parse / dumper.dump (C01_multi_grid); date-times inside whole grids and version 2.0 grids are decided by the tie (writer model = hszinc.dump text, reader model = hszinc.parse value, on generated grids) '
+        'the number rule reading leading digits loses to a date or time, NA wins over N). Date-times are proved per kind (C01_datetime: the written text is read back, through the whole alternation, as the raw ISO text and zone name; their interpretation is the iso8601 / pytz oracle); multi-grid documents are proved at the level of parser.parse / dumper.dump (C01_multi_grid); version 2.0 grids without metadata over the 2.0 kinds are proved too (C01_grid_2_0: the 2.0 alternation and the reader\'s version gate); date-times inside whole grids and 2.0 grids with metadata are decided by the tie (writer model = hszinc.dump text, reader model = hszinc.parse value, on generated grids) '
         'and by the round-trip search on the implementation with a kind-strict comparator.',
-   note='PARTIAL: the general theorem covers 3.0 grids over the kinds listed (every kind but date-times); date-times inside grids and 2.0 grids are covered by tie + search only. Number texts are CPython tokens (str(float) / float() are oracles), date-times are compared by instant, offset and zone name through pytz as oracle. '
+   note='PARTIAL: the general theorem covers 3.0 grids over the kinds listed (every kind but date-times); date-times inside grids and 2.0 grids with metadata are covered by tie + search only. Number texts are CPython tokens (str(float) / float() are oracles), date-times are compared by instant, offset and zone name through pytz as oracle. '
         'pyparsing itself is modelled by typed combinators (Or = longest match, first on ties; parse actions; no implicit whitespace skipping as hszinc configures it). Print Assumptions: closed under the global context.',
    technique='Coq proof about combinator model of the pyparsing grammar + extracted-model correspondence (dump text, parse value) + round-trip search',
    design='DESIGN.md §3 C01'),
